@@ -725,15 +725,17 @@ Theorem junction_degenerate_branch_scales_like_pressure : forall lam e Tp Tm,
 Proof. exact vpvm_degenerate_branch_scales. Qed.
 Print Assumptions junction_degenerate_branch_scales_like_pressure.
 
-(** with [junction_velocities_invariant] (vJ^2 = v+v- * v+/v- at the root): the Jouguet
-    temperature scales like lam and the Jouguet velocity is invariant *)
-Theorem jouguet_condition_covariant : forall lam e tm, 0 < lam ->
+(** HOMOGENEITY of the function whose root findJouguetVelocity looks for, hence equal zero
+    sets up to T -> lam T.  This is not invariance of vJ as computed: which root is selected
+    (bracket min(max(2Tn, TMaxLowT), TMaxHydro), the +Tnucl loop, the secant and template
+    fall-backs) is not modelled; vJ itself is compared by the metamorphic runs only. *)
+Theorem jouguet_function_homogeneous : forall lam e tm, 0 < lam ->
   hy_vpDerivNum (hy_scale lam e) (lam * tm) = lam ^ 15 * hy_vpDerivNum e tm /\
   (hy_vpDerivNum (hy_scale lam e) (lam * tm) = 0 <-> hy_vpDerivNum e tm = 0).
 Proof.
   intros lam e tm Hl. split; [apply vpDerivNum_scaling | apply jouguet_root_covariant]; exact Hl.
 Qed.
-Print Assumptions jouguet_condition_covariant.
+Print Assumptions jouguet_function_homogeneous.
 
 Theorem shock_equations_covariant : forall lam e v xi T b, 0 < lam ->
   hy_shockDE_shock (hy_scale lam e) v (xi, lam * T) b =
@@ -854,12 +856,19 @@ Local Open Scope string_scope.
     - scale=1.0 defaults of helpers.derivative/gradient/hessian (pseudo-dimension 1000 = "the
       variable differentiated with respect to"): every caller in WallGo passes scale= (a call
       without it is a site of kind "noscale").
+    - notol: Nelder-Mead (wall widths/offsets) and minimize_scalar "Bounded" (matchDeton) calls
+      that leave scipy's absolute xatol/fatol defaults in force (exercised by the metamorphic
+      runs only).
+    Kind "absent" = a dimensionful parameter of a WallGo callable left to a numeric default;
+    kind "default" = such a default itself (none today besides helpers' scale=1.0).
     Kinds ending in "?" are places where a float literal or an absolute solver keyword meets
     an expression whose dimension the naming table cannot tell (fail closed). *)
 Definition reviewed_sites : list site := [
   mk_site "equationOfMotion.py" "EOM.solveWall" "assign" "pressAbsErrTol = 1e-08" (Some 4%Z) 1;
+  mk_site "equationOfMotion.py" "EOM._intermediatePressureResults" "notol" "minimize('Nelder-Mead') without an absolute tolerance keyword" None 1;
   mk_site "hydrodynamics.py" "Hydrodynamics.findJouguetVelocity" "xtol" "root_scalar(xtol=self.atol)" (Some 1%Z) 2;
   mk_site "hydrodynamics.py" "Hydrodynamics.vpvmAndvpovm" "branch" "(pHighT - pLowT) / (eHighT - eLowT)" (Some 4%Z) 1;
+  mk_site "hydrodynamics.py" "Hydrodynamics.matchDeton" "notol" "minimize_scalar('Bounded') without an absolute tolerance keyword" (Some 1%Z) 1;
   mk_site "hydrodynamics.py" "Hydrodynamics.matchDeton" "xtol" "root_scalar(xtol=self.atol)" (Some 1%Z) 1;
   mk_site "hydrodynamics.py" "Hydrodynamics.matchDeflagOrHyb" "cmp?" "1e-06 ~ np.sum(sol.fun ** 2)" None 1;
   mk_site "hydrodynamics.py" "Hydrodynamics.solveHydroShock" "xtol" "root_scalar(xtol=self.atol)" (Some 1%Z) 2;
@@ -911,3 +920,66 @@ Theorem solver_state_is_rebuilt_by_setup :
   Forall (fun a => implb (c_read a) (c_rebuilt a) = true) solver_state.
 Proof. repeat constructor. Qed.
 Print Assumptions solver_state_is_rebuilt_by_setup.
+
+(** Numeric DEFAULTS that carry or hide a unit (every field of the config.py dataclasses, every
+    defaulted tolerance / step / scale parameter of the analysed modules): the justification of
+    the tolerated sites ("dominated by the relative tolerance", "far inside the solver
+    tolerance") depends on these NUMBERS, so they are pinned to the reviewed values. *)
+Definition reviewed_default_values : list (string * (string * string)) := [
+  ("equationOfMotion.py:__init__", ("errTol", "0.001"));
+  ("equationOfMotion.py:__init__", ("pressRelErrTol", "0.3679"));
+  ("equationOfMotion.py:findWallVelocityDetonation", ("rtol", "0.01"));
+  ("hydrodynamicsTemplateModel.py:__init__", ("rtol", "1e-06"));
+  ("hydrodynamicsTemplateModel.py:__init__", ("atol", "1e-10"));
+  ("thermodynamics.py:findCriticalTemperature", ("rTol", "1e-06"));
+  ("freeEnergy.py:tracePhase", ("rTol", "1e-06"));
+  ("helpers.py:derivative", ("epsilon", "1e-16"));
+  ("helpers.py:derivative", ("scale", "1.0"));
+  ("helpers.py:gradient", ("epsilon", "1e-16"));
+  ("helpers.py:gradient", ("scale", "1.0"));
+  ("helpers.py:hessian", ("epsilon", "1e-16"));
+  ("helpers.py:hessian", ("scale", "1.0"));
+  ("config.py:ConfigGrid", ("spatialGridSize", "40"));
+  ("config.py:ConfigGrid", ("momentumGridSize", "11"));
+  ("config.py:ConfigGrid", ("ratioPointsWall", "0.5"));
+  ("config.py:ConfigGrid", ("smoothing", "0.1"));
+  ("config.py:ConfigEOM", ("errTol", "0.001"));
+  ("config.py:ConfigEOM", ("pressRelErrTol", "0.1"));
+  ("config.py:ConfigEOM", ("maxIterations", "20"));
+  ("config.py:ConfigEOM", ("conserveEnergyMomentum", "True"));
+  ("config.py:ConfigEOM", ("wallThicknessBounds", "field(default_factory=lambda: [0.1, 100.0])"));
+  ("config.py:ConfigEOM", ("wallOffsetBounds", "field(default_factory=lambda: [-10.0, 10.0])"));
+  ("config.py:ConfigEOM", ("vwMaxDeton", "0.99"));
+  ("config.py:ConfigEOM", ("nbrPointsMinDeton", "5"));
+  ("config.py:ConfigEOM", ("nbrPointsMaxDeton", "20"));
+  ("config.py:ConfigEOM", ("overshootProbDeton", "0.05"));
+  ("config.py:ConfigHydrodynamics", ("tmin", "0.01"));
+  ("config.py:ConfigHydrodynamics", ("tmax", "10.0"));
+  ("config.py:ConfigHydrodynamics", ("relativeTol", "1e-06"));
+  ("config.py:ConfigHydrodynamics", ("absoluteTol", "1e-10"));
+  ("config.py:ConfigThermodynamics", ("tmin", "0.8"));
+  ("config.py:ConfigThermodynamics", ("tmax", "1.2"));
+  ("config.py:ConfigThermodynamics", ("phaseTracerTol", "1e-06"));
+  ("config.py:ConfigThermodynamics", ("phaseTracerFirstStep", "None"));
+  ("config.py:ConfigBoltzmannSolver", ("basisM", "'Cardinal'"));
+  ("config.py:ConfigBoltzmannSolver", ("basisN", "'Chebyshev'"));
+  ("config.py:ConfigBoltzmannSolver", ("collisionMultiplier", "1.0"));
+  ("config.py:Config", ("configGrid", "field(default_factory=lambda: ConfigGrid())"));
+  ("config.py:Config", ("configEOM", "field(default_factory=lambda: ConfigEOM())"));
+  ("config.py:Config", ("configHydrodynamics", "field(default_factory=lambda: ConfigHydrodynamics())"));
+  ("config.py:Config", ("configThermodynamics", "field(default_factory=lambda: ConfigThermodynamics())"));
+  ("config.py:Config", ("configBoltzmannSolver", "field(default_factory=lambda: ConfigBoltzmannSolver())"));
+  ("interpolatableFunction.py:derivative", ("epsilon", "1e-16"));
+  ("interpolatableFunction.py:derivative", ("scale", "1.0"))
+].
+Theorem default_values_are_the_reviewed_ones : default_values = reviewed_default_values.
+Proof. vm_compute. reflexivity. Qed.
+Print Assumptions default_values_are_the_reviewed_ones.
+
+(** The entry points the input-flow and cache-invalidation facts are computed over: a renamed
+    or new method of WallGoManager must be looked at (the extractor itself fails closed when
+    one of its root entry points is missing). *)
+Definition reviewed_manager_methods : list string := ["__init__"; "getMomentumGridSize"; "setVerbosity"; "setupThermodynamicsHydrodynamics"; "isModelValid"; "registerModel"; "validatePhaseInput"; "initTemperatureRange"; "setPathToCollisionData"; "getCurrentCollisionDirectory"; "wallSpeedLTE"; "solveWall"; "solveWallDetonation"; "setupWallSolver"; "_initHydrodynamics"; "buildGrid"; "buildEOM"].
+Theorem manager_methods_are_the_reviewed_ones : manager_methods = reviewed_manager_methods.
+Proof. vm_compute. reflexivity. Qed.
+Print Assumptions manager_methods_are_the_reviewed_ones.
